@@ -818,7 +818,10 @@ def check_even_integer_shortcuts(run, ix):
                 continue
             rv = st.body[-1].value
             elts = rv.elts if isinstance(rv, ast.Tuple) else [rv]
-            if not all(isinstance(e, ast.Constant) or
+            def _zero_or_nan(e):
+                # `x - x` of the compared argument: 0.0 for every finite x, nan for an infinity
+                return isinstance(e, ast.BinOp) and isinstance(e.op, ast.Sub) and norm(e.left) == norm(e.right) == norm(left)
+            if not all(isinstance(e, ast.Constant) or _zero_or_nan(e) or
                        (isinstance(e, ast.UnaryOp) and isinstance(e.operand, ast.Constant)) for e in elts):
                 continue
             c = st.test.comparators[0]
@@ -829,6 +832,19 @@ def check_even_integer_shortcuts(run, ix):
             if val is None:
                 raise AnalysisError('%s: threshold of the large-argument shortcut is not a constant' % f.qualname)
             n += 1
+            # F-R16: an infinity passes every `x >= C`; it must not leave with the constants of an even integer
+            guarded_inf = any(_zero_or_nan(e) for e in elts) or any(
+                isinstance(c_, ast.Call) and norm(c_.func).split('.')[-1] in ('isinf', 'isfinite')
+                for c_ in ast.walk(st.test)) or any(
+                isinstance(p_, ast.If) and p_.lineno < st.lineno and any(
+                    isinstance(c_, ast.Call) and norm(c_.func).split('.')[-1] in ('isinf', 'isfinite') for c_ in ast.walk(p_.test))
+                and p_.body and isinstance(p_.body[-1], (ast.Return, ast.Raise)) for p_ in _walk_own(f.node))
+            if guarded_inf:
+                run.ok('F-R16', '%s: an infinite argument leaves the shortcut as nan' % f.qualname)
+            else:
+                run.fail(F('F-R16', MATH2, f.qualname, st,
+                           'an infinity satisfies `%s` and is reduced like an even integer: fp.sinpi(inf) is 0.0 and '
+                           'fp.cospi(inf) is 1.0 (mp.sinpi(inf) is nan)' % norm(st.test)))
             if val >= 2 ** 53:
                 run.ok('F-R9', '%s: shortcut from %r on (>= 2^53)' % (f.qualname, val))
             else:
@@ -838,6 +854,47 @@ def check_even_integer_shortcuts(run, ix):
                            'would be +1 instead of -1' % val))
     if n < 1:
         raise AnalysisError('F-R9: no large-argument shortcut found in the *pi reduction')
+
+
+# --------------------------------------------------------------------------- F-R17
+def check_newton_correction_at_infinity(run, ix):
+    """F-R17 (regression of repair 9e55673; fourth C13 hunt, repair 86b2c3c).  A root computed as x**(1/n) and then
+    corrected by a Newton step  y -= (y**n - x) / (n*y**(n-1))  is inf - inf/inf = nan when the root is infinite.  Every
+    such step in math2 (an augmented subtraction of a quotient whose denominator contains the corrected variable)
+    stands under a test that excludes an infinite value."""
+    m2 = ix.module(MATH2)
+    n = 0
+    for f in m2.funcs.values():
+        for st in _walk_own(f.node):
+            if not (isinstance(st, ast.AugAssign) and isinstance(st.op, ast.Sub) and isinstance(st.target, ast.Name) and
+                    isinstance(st.value, ast.BinOp) and isinstance(st.value.op, ast.Div)):
+                continue
+            y = st.target.id
+            if not any(isinstance(t, ast.Name) and t.id == y for t in ast.walk(st.value.right)):
+                continue
+            n += 1
+            ok = False
+            p = st
+            while p is not f.node:
+                par = p._parent
+                if isinstance(par, ast.If) and any(p is b for b in par.body):
+                    for c in ast.walk(par.test):
+                        if isinstance(c, ast.UnaryOp) and isinstance(c.op, ast.Not) and isinstance(c.operand, ast.Call) and \
+                                norm(c.operand.func).split('.')[-1] == 'isinf' and c.operand.args and norm(c.operand.args[0]) == y:
+                            ok = True
+                        if isinstance(c, ast.Call) and norm(c.func).split('.')[-1] == 'isfinite' and c.args and \
+                                norm(c.args[0]) == y:
+                            ok = True
+                p = par
+            if ok:
+                run.ok('F-R17', '%s: the Newton correction of %s is skipped for an infinite value' % (f.qualname, y))
+            else:
+                run.fail(F('F-R17', MATH2, f.qualname, st,
+                           'the Newton correction is applied to an infinite root: inf - (inf - inf)/inf is nan, fp.cbrt(inf) '
+                           'is nan instead of inf'))
+    if n < 1:
+        # whether a root needs its correction is rule F-R8
+        run.ok('F-R17', 'no Newton correction in math2 (see F-R8)')
 
 
 # --------------------------------------------------------------------------- F-R10
@@ -1049,7 +1106,10 @@ def run(run, ix, tier):
     binds = check_bindings(run, ix)
     nslots = check_fp_table(run, ix)
     check_no_fallthrough(run, ix)
+    run.rule('F-R16', floor=1, desc='an infinite argument does not take the even-integer shortcut of the *pi functions')
     check_even_integer_shortcuts(run, ix)
+    run.rule('F-R17', floor=1, desc='Newton corrections of roots are skipped at infinity')
+    check_newton_correction_at_infinity(run, ix)
     check_asech_side(run, ix)
     run.rule('F-R10', floor=1, desc='*pi reduction folds the remainder into |r| <= 1/4')
     check_quarter_fold(run, ix)
